@@ -399,6 +399,15 @@ func c18SettingsFingerprint(a *l2.App, clock *vlib.VClock) []string {
 	pub := l2.JSONReq("POST", ap+"/messages/publish", map[string]any{"items": []map[string]any{{"id": fmt.Sprintf("fp-%d", clock.NowNS()), "route": "/b", "payload_b64": "eA=="}}}, "atok")
 	pub.Header.Set("X-Hookaido-Audit-Reason", "verif")
 	out = append(out, fmt.Sprintf("publish without actor => %d", l2.Do(a.Admin, pub).Status))
+	for _, v := range []struct{ name, actor, reqID string }{{"publish with actor ci-bot and request id", "ci-bot", "r-1"}, {"publish with actor deploy-7, no request id", "deploy-7", ""}, {"publish with actor mallory and request id", "mallory", "r-2"}} {
+		pq := l2.JSONReq("POST", ap+"/messages/publish", map[string]any{"items": []map[string]any{{"id": fmt.Sprintf("fp-%s-%d", v.actor, clock.NowNS()), "route": "/b", "payload_b64": "eA=="}}}, "atok")
+		pq.Header.Set("X-Hookaido-Audit-Reason", "verif")
+		pq.Header.Set("X-Hookaido-Audit-Actor", v.actor)
+		if v.reqID != "" {
+			pq.Header.Set("X-Request-ID", v.reqID)
+		}
+		out = append(out, fmt.Sprintf("%s => %d", v.name, l2.Do(a.Admin, pq).Status))
+	}
 	clock.Advance(time.Millisecond)
 	// depth limit: fill up and count acceptances
 	acc := 0
@@ -438,6 +447,12 @@ func c18SettingEdits(c *vlib.Ctx) {
 		{"defaults_max_body", rep("max_body 64", "max_body 128")},
 		{"defaults_max_headers", rep("max_headers 4096", "max_headers 8192")},
 		{"publish_policy_require_actor", rep("require_actor off", "require_actor on")},
+		{"publish_policy_require_request_id", rep("require_actor off", "require_actor off\n  require_request_id on")},
+		{"publish_policy_direct_off", rep("require_actor off", "require_actor off\n  direct off")},
+		{"publish_policy_allow_pull_routes_off", rep("require_actor off", "require_actor off\n  allow_pull_routes off")},
+		{"publish_policy_actor_allow", rep("require_actor off", "require_actor on\n  actor_allow \"ci-bot\"")},
+		{"publish_policy_actor_prefix", rep("require_actor off", "require_actor on\n  actor_prefix \"deploy-\"")},
+		{"publish_policy_fail_closed", rep("require_actor off", "require_actor off\n  fail_closed on")},
 		{"queue_limits_max_depth", rep("max_depth 40", "max_depth 400")},
 		{"queue_limits_drop_policy", rep("drop_policy reject", "drop_policy drop_oldest")},
 		{"queue_retention", func(t string) string { return t + "queue_retention { max_age 1h\n prune_interval 1m }\n" }},
@@ -794,6 +809,7 @@ func C18(c *vlib.Ctx) {
 	}
 	c18Mixture(c)
 	c18Files(c)
+	c18MCPReloadVerdict(c)
 	c.CollectRaces()
 }
 
